@@ -1362,9 +1362,19 @@ impl<'a, W: AsRef<[u64]>> YamlCursor<'a, W> {
         // uses the dash-alone style) — resolve once and reuse for both
         // calls below, rather than relying on `stream_yaml_value`'s
         // `Mapping` arm to notice on every recursive call (#835).
-        let self_ = self.resolve_bare_seq_item();
-        self_.write_leading_anchor(out)?;
-        self_.stream_yaml_value(out, "", indent.width, indent.unit, sort_keys, false)
+        let node = self.resolve_bare_seq_item();
+        let anchors_from = node.yaml_anchors_from();
+        let self_ = node.resolve_outside_alias(anchors_from);
+        self_.write_leading_anchor(out, anchors_from)?;
+        self_.stream_yaml_value(
+            out,
+            "",
+            indent.width,
+            indent.unit,
+            sort_keys,
+            false,
+            anchors_from,
+        )
     }
 
     /// Like [`Self::stream_yaml`], but also appends this cursor's own
@@ -1418,8 +1428,10 @@ impl<'a, W: AsRef<[u64]>> YamlCursor<'a, W> {
         // See `stream_yaml` (#835): resolve once, reuse throughout, rather
         // than relying on each downstream read to notice a bare-dash
         // wrapper on its own.
-        let self_ = self.resolve_bare_seq_item();
-        self_.write_leading_anchor(out)?;
+        let node = self.resolve_bare_seq_item();
+        let anchors_from = node.yaml_anchors_from();
+        let self_ = node.resolve_outside_alias(anchors_from);
+        self_.write_leading_anchor(out, anchors_from)?;
         let value = self_.value();
         if let YamlValue::String(s) = &value {
             let str_val = s.as_str().unwrap_or(Cow::Borrowed("\"\""));
@@ -1448,10 +1460,18 @@ impl<'a, W: AsRef<[u64]>> YamlCursor<'a, W> {
             }
             out.write_str(&str_val)?;
         } else {
-            self_.stream_yaml_value(out, "", indent.width, indent.unit, sort_keys, false)?;
+            self_.stream_yaml_value(
+                out,
+                "",
+                indent.width,
+                indent.unit,
+                sort_keys,
+                false,
+                anchors_from,
+            )?;
         }
         if matches!(value, YamlValue::Mapping(_) | YamlValue::Sequence(_)) {
-            write_line_comment(out, self_.line_comment_raw())?;
+            write_line_comment(out, node.line_comment_raw())?;
         }
         Ok(())
     }
@@ -1484,9 +1504,67 @@ impl<'a, W: AsRef<[u64]>> YamlCursor<'a, W> {
 
         // Multiple documents or not at root - output as-is. See
         // `stream_yaml` (#835): resolve once, reuse for both calls.
-        let self_ = self.resolve_bare_seq_item();
-        self_.write_leading_anchor(out)?;
-        self_.stream_yaml_value(out, "", indent.width, indent.unit, sort_keys, false)
+        let node = self.resolve_bare_seq_item();
+        let anchors_from = node.yaml_anchors_from();
+        let self_ = node.resolve_outside_alias(anchors_from);
+        self_.write_leading_anchor(out, anchors_from)?;
+        self_.stream_yaml_value(
+            out,
+            "",
+            indent.width,
+            indent.unit,
+            sort_keys,
+            false,
+            anchors_from,
+        )
+    }
+
+    /// The first BP position whose anchor syntax a YAML output rooted at
+    /// this cursor can keep: its own, when the subtree refers to an anchor
+    /// declared before it, else 0 (everything, the whole-document case).
+    ///
+    /// A printed result has to load on its own, and `*x` does not where no
+    /// `&x` precedes it in the same output (`.b` on `a: &x 1\nb: [*x]`
+    /// printed `[*x]`, "unknown anchor", where `-o json` and the DOM route
+    /// print `[1]`). An anchor precedes its aliases in the text, so one
+    /// that is not inside the printed subtree was declared before it opens:
+    /// one position splits what is printed from what is not. Every node
+    /// before it that still gets written is the value of such an alias
+    /// ([`Self::resolve_outside_alias`]), written plain -- its own anchors
+    /// are not declared ([`Self::anchor_from`]) and its own aliases resolve
+    /// the same way, so no name of the printed subtree is ever redefined
+    /// under an alias that follows. This is the DOM route's
+    /// `enforce_anchor_soundness`, for the writer that has no tree to mark.
+    fn yaml_anchors_from(&self) -> usize {
+        if self.index.has_alias_to_outside(self.bp_pos) {
+            self.bp_pos
+        } else {
+            0
+        }
+    }
+
+    /// The node written in this one's place: the target of an alias whose
+    /// anchor is declared before `anchors_from` (see
+    /// [`Self::yaml_anchors_from`]), otherwise `self`.
+    fn resolve_outside_alias(self, anchors_from: usize) -> Self {
+        if anchors_from == 0 {
+            return self;
+        }
+        match self.index.get_alias_target(self.bp_pos) {
+            Some(target) if target < anchors_from => self
+                .resolve_alias_target_cursor()
+                .map_or(self, |target| target.resolve_bare_seq_item()),
+            _ => self,
+        }
+    }
+
+    /// [`Self::anchor`], unless this node lies before `anchors_from` (see
+    /// [`Self::yaml_anchors_from`]).
+    fn anchor_from(&self, anchors_from: usize) -> Option<&str> {
+        if self.bp_pos < anchors_from {
+            return None;
+        }
+        self.anchor()
     }
 
     /// Write this cursor's own `&anchor` before streaming it as a YAML root.
@@ -1514,7 +1592,11 @@ impl<'a, W: AsRef<[u64]>> YamlCursor<'a, W> {
     /// `&x {}`, verified against yq v4.53.3), it just always renders inline
     /// (`{}`/`[]` are the only way to write an empty mapping/sequence, so the
     /// `style() != "flow"` check below still picks the right separator).
-    fn write_leading_anchor<Out: core::fmt::Write>(&self, out: &mut Out) -> core::fmt::Result {
+    fn write_leading_anchor<Out: core::fmt::Write>(
+        &self,
+        out: &mut Out,
+        anchors_from: usize,
+    ) -> core::fmt::Result {
         // A top-level query result can itself be an unresolved bare-`-`
         // sequence-item wrapper (e.g. `.[0]` on a document whose item 0
         // uses the dash-alone style) — resolve first, or `is_container()`
@@ -1522,7 +1604,7 @@ impl<'a, W: AsRef<[u64]>> YamlCursor<'a, W> {
         // regardless of what it wraps, silently dropping its anchor (#835).
         let self_ = self.resolve_bare_seq_item();
         if self_.is_container() {
-            if let Some(anchor) = self_.anchor() {
+            if let Some(anchor) = self_.anchor_from(anchors_from) {
                 out.write_char('&')?;
                 out.write_str(anchor)?;
                 if self_.style() != "flow" {
@@ -1561,6 +1643,11 @@ impl<'a, W: AsRef<[u64]>> YamlCursor<'a, W> {
     ///   (`bp_to_text_pos`) plus a byte scan, not free work to repeat
     ///   twice per element on this crate's flagship streaming path.
     ///   `false` everywhere else, which re-derives it as before.
+    /// - `anchors_from`: the output root's [`Self::yaml_anchors_from`],
+    ///   unchanged all the way down. Each child is fetched through
+    ///   [`Self::resolve_outside_alias`] and its anchor through
+    ///   [`Self::anchor_from`], so the `Alias` arm below only ever sees an
+    ///   alias whose anchor this output declares.
     #[allow(clippy::too_many_arguments)] // STYLE-0004: every param is threaded through this function's own recursion; a struct would hide the 1:1 relationship each has to a specific rendering decision
     fn stream_yaml_value<Out: core::fmt::Write>(
         &self,
@@ -1570,6 +1657,7 @@ impl<'a, W: AsRef<[u64]>> YamlCursor<'a, W> {
         unit: char,
         sort_keys: bool,
         known_not_flow: bool,
+        anchors_from: usize,
     ) -> core::fmt::Result {
         match self.value() {
             YamlValue::Null => out.write_str("null"),
@@ -1754,9 +1842,16 @@ impl<'a, W: AsRef<[u64]>> YamlCursor<'a, W> {
                         if i != 0 {
                             out.write_str(", ")?;
                         }
+                        let anchors_from = field_anchors_from(field, anchors_from);
                         write_yaml_field_key(out, field)?;
                         out.write_str(": ")?;
-                        write_yaml_child_inline(out, field.value_cursor(), unit, sort_keys)?;
+                        write_yaml_child_inline(
+                            out,
+                            field.value_cursor(),
+                            unit,
+                            sort_keys,
+                            anchors_from,
+                        )?;
                         if i == last_index {
                             let value_cursor = field.value_cursor();
                             let comment = value_cursor.line_comment_raw();
@@ -1782,10 +1877,14 @@ impl<'a, W: AsRef<[u64]>> YamlCursor<'a, W> {
                             out.write_str(indent)?;
                         }
                         first = false;
+                        let anchors_from = field_anchors_from(field, anchors_from);
                         write_yaml_field_key(out, field)?;
                         out.write_char(':')?;
-                        // Check if value needs newline
-                        let value = field.value_cursor();
+                        // Check if value needs newline. `value` is what gets
+                        // written; its line's comment stays `node`'s own,
+                        // whatever `value` was resolved to.
+                        let node = field.value_cursor();
+                        let value = node.resolve_outside_alias(anchors_from);
                         if is_yaml_cursor_container(&value) && value.style() != "flow" {
                             // The key's own trailing comment (#765), then
                             // the anchor/tag -- both via the same helper
@@ -1797,7 +1896,7 @@ impl<'a, W: AsRef<[u64]>> YamlCursor<'a, W> {
                             write_deferred_prefix(
                                 out,
                                 field.key_cursor().line_comment_raw(),
-                                value.anchor(),
+                                value.anchor_from(anchors_from),
                                 value.explicit_tag(),
                             )?;
                             out.write_char('\n')?;
@@ -1810,8 +1909,9 @@ impl<'a, W: AsRef<[u64]>> YamlCursor<'a, W> {
                                 unit,
                                 sort_keys,
                                 true,
+                                anchors_from,
                             )?;
-                            write_line_comment(out, value.line_comment_raw())?;
+                            write_line_comment(out, node.line_comment_raw())?;
                         } else {
                             // The value's own comment takes priority; fall
                             // back to the key's own comment when the value
@@ -1827,7 +1927,7 @@ impl<'a, W: AsRef<[u64]>> YamlCursor<'a, W> {
                             // for `a: v # c` is always the value, never
                             // the key.
                             let key_cursor = field.key_cursor();
-                            let comment = value
+                            let comment = node
                                 .line_comment_raw()
                                 .or_else(|| key_cursor.line_comment_raw());
                             // #1077: a deferred value that materializes as
@@ -1853,6 +1953,7 @@ impl<'a, W: AsRef<[u64]>> YamlCursor<'a, W> {
                                 unit,
                                 sort_keys,
                                 comment,
+                                anchors_from,
                             )?;
                         }
                     }
@@ -1876,7 +1977,7 @@ impl<'a, W: AsRef<[u64]>> YamlCursor<'a, W> {
                             out.write_str(", ")?;
                         }
                         first = false;
-                        write_yaml_child_inline(out, cursor, unit, sort_keys)?;
+                        write_yaml_child_inline(out, cursor, unit, sort_keys, anchors_from)?;
                         if rest.is_empty() {
                             let comment = cursor.line_comment_raw();
                             write_flow_last_item_comment(out, comment, indent)?;
@@ -1894,12 +1995,16 @@ impl<'a, W: AsRef<[u64]>> YamlCursor<'a, W> {
                     // `-` item needs to already be resolved past its
                     // sequence-item wrapper before it gets here — see
                     // `uncons_resolved_cursor`'s own doc comment (#835).
-                    while let Some((cursor, rest)) = elems.uncons_resolved_cursor() {
+                    while let Some((node, rest)) = elems.uncons_resolved_cursor() {
                         if !first {
                             out.write_char('\n')?;
                             out.write_str(indent)?;
                         }
                         first = false;
+                        // `cursor` is what gets written; its line's comment
+                        // stays `node`'s own, whatever `cursor` was resolved
+                        // to.
+                        let cursor = node.resolve_outside_alias(anchors_from);
                         // A non-empty, non-flow mapping/sequence value
                         // renders in real yq's "compact" form: `- ` shares
                         // its line with the value's own first field/element,
@@ -1926,7 +2031,7 @@ impl<'a, W: AsRef<[u64]>> YamlCursor<'a, W> {
                         // pre-existing gap, out of scope for #785.)
                         let style = cursor.style();
                         if is_yaml_cursor_container(&cursor) && style != "flow" {
-                            let anchor = cursor.anchor();
+                            let anchor = cursor.anchor_from(anchors_from);
                             let tag = cursor.explicit_tag();
                             if anchor.is_some() || tag.is_some() {
                                 out.write_char('-')?;
@@ -1947,6 +2052,7 @@ impl<'a, W: AsRef<[u64]>> YamlCursor<'a, W> {
                                     unit,
                                     sort_keys,
                                     true,
+                                    anchors_from,
                                 )?;
                             } else {
                                 out.write_str("- ")?;
@@ -1958,9 +2064,10 @@ impl<'a, W: AsRef<[u64]>> YamlCursor<'a, W> {
                                     unit,
                                     sort_keys,
                                     true,
+                                    anchors_from,
                                 )?;
                             }
-                            write_line_comment(out, cursor.line_comment_raw())?;
+                            write_line_comment(out, node.line_comment_raw())?;
                         } else {
                             // #1077: mirrors the mapping-field branch above
                             // -- see `write_deferred_value`'s own doc
@@ -1973,7 +2080,8 @@ impl<'a, W: AsRef<[u64]>> YamlCursor<'a, W> {
                                 indent_spaces,
                                 unit,
                                 sort_keys,
-                                cursor.line_comment_raw(),
+                                node.line_comment_raw(),
+                                anchors_from,
                             )?;
                         }
                         elems = rest;
@@ -6610,9 +6718,10 @@ fn write_deferred_value<Out: core::fmt::Write, W: AsRef<[u64]>>(
     indent_spaces: usize,
     unit: char,
     sort_keys: bool,
+    anchors_from: usize,
 ) -> core::fmt::Result {
     let absent = is_deferred_value_absent(value);
-    let anchor = value.anchor();
+    let anchor = value.anchor_from(anchors_from);
     let tag = if absent { value.explicit_tag() } else { None };
     write_deferred_prefix(out, None, anchor, tag)?;
     if !absent {
@@ -6623,7 +6732,15 @@ fn write_deferred_value<Out: core::fmt::Write, W: AsRef<[u64]>>(
         // un-extracted logic's `|| !absent` conditions byte-for-byte.
         out.write_char(' ')?;
         let child_indent = deeper_yaml_indent(indent, indent_spaces, unit);
-        value.stream_yaml_value(out, &child_indent, indent_spaces, unit, sort_keys, false)?;
+        value.stream_yaml_value(
+            out,
+            &child_indent,
+            indent_spaces,
+            unit,
+            sort_keys,
+            false,
+            anchors_from,
+        )?;
     }
     Ok(())
 }
@@ -6646,6 +6763,7 @@ fn write_deferred_value_and_comment<Out: core::fmt::Write, W: AsRef<[u64]>>(
     unit: char,
     sort_keys: bool,
     comment: Option<&str>,
+    anchors_from: usize,
 ) -> core::fmt::Result {
     let is_block_scalar = comment.is_some()
         && matches!(
@@ -6653,11 +6771,27 @@ fn write_deferred_value_and_comment<Out: core::fmt::Write, W: AsRef<[u64]>>(
             YamlValue::String(YamlString::BlockLiteral { .. } | YamlString::BlockFolded { .. })
         );
     if !is_block_scalar {
-        write_deferred_value(out, value, indent, indent_spaces, unit, sort_keys)?;
+        write_deferred_value(
+            out,
+            value,
+            indent,
+            indent_spaces,
+            unit,
+            sort_keys,
+            anchors_from,
+        )?;
         return write_line_comment(out, comment);
     }
     let mut text = String::new();
-    write_deferred_value(&mut text, value, indent, indent_spaces, unit, sort_keys)?;
+    write_deferred_value(
+        &mut text,
+        value,
+        indent,
+        indent_spaces,
+        unit,
+        sort_keys,
+        anchors_from,
+    )?;
     // No line break: the scalar fell back to a quoted, one-line form.
     let first_line_end = text.find('\n').unwrap_or(text.len());
     out.write_str(&text[..first_line_end])?;
@@ -6747,15 +6881,40 @@ fn write_yaml_field_key<W: AsRef<[u64]>, Out: core::fmt::Write>(
     }
 }
 
+/// `stream_yaml_value`'s `anchors_from` for one mapping field's value: 0
+/// under a literal `<<` merge key (the one [`write_yaml_field_key`] tags
+/// `!!merge`), else unchanged.
+///
+/// Known gap: a merge key's sources are kept as written even where that
+/// leaves an alias dangling (`.item` on `default: &d {a: 1}` / `item: {<<:
+/// *d}` prints `!!merge <<: *d`), which is real yq's own output and what
+/// `test_yaml_merge_key_untouched_across_partial_selection_712` pins.
+fn field_anchors_from<W: AsRef<[u64]>>(field: YamlField<'_, W>, anchors_from: usize) -> usize {
+    let is_merge_key = anchors_from != 0
+        && matches!(
+            field.key(),
+            YamlValue::String(s @ YamlString::Unquoted { .. })
+                if matches!(s.as_str(), Ok(v) if v == "<<")
+        );
+    if is_merge_key {
+        0
+    } else {
+        anchors_from
+    }
+}
+
 /// Write a child value that is always inline (flow-style mapping/sequence
-/// entries), prefixing its anchor if it has one.
+/// entries), prefixing its anchor if it has one. `anchors_from`: see
+/// `stream_yaml_value`.
 fn write_yaml_child_inline<W: AsRef<[u64]>, Out: core::fmt::Write>(
     out: &mut Out,
     value: YamlCursor<'_, W>,
     unit: char,
     sort_keys: bool,
+    anchors_from: usize,
 ) -> core::fmt::Result {
-    let anchor = value.anchor();
+    let value = value.resolve_outside_alias(anchors_from);
+    let anchor = value.anchor_from(anchors_from);
     if let Some(anchor) = anchor {
         out.write_char('&')?;
         out.write_str(anchor)?;
@@ -6821,7 +6980,7 @@ fn write_yaml_child_inline<W: AsRef<[u64]>, Out: core::fmt::Write>(
                 .is_some_and(|tag| resolve_tagged("", tag).is_some());
         return out.write_str(if keep_quotes { "''" } else { "null" });
     }
-    value.stream_yaml_value(out, "", 0, unit, sort_keys, false)
+    value.stream_yaml_value(out, "", 0, unit, sort_keys, false, anchors_from)
 }
 
 /// Write a trailing same-line comment after a value, if present (issue
@@ -6899,6 +7058,9 @@ fn write_flow_last_item_comment<Out: core::fmt::Write>(
 /// instead of `- &anc !!mytag`, the tag silently dropped and a spurious
 /// `null` value synthesized) and fixed by routing this branch through
 /// `write_deferred_value` the same as its `stream_yaml_value` counterpart.
+///
+/// Each cursor is a whole document, which declares every anchor its own
+/// aliases name, so `stream_yaml_value`'s `anchors_from` is 0 throughout.
 pub fn stream_yaml_sequence<'a, W, I, Out>(
     cursors: I,
     out: &mut Out,
@@ -6925,7 +7087,7 @@ where
                 out.write_str(", ")?;
             }
             first = false;
-            write_yaml_child_inline(out, cursor, unit, sort_keys)?;
+            write_yaml_child_inline(out, cursor, unit, sort_keys, 0)?;
         }
         out.write_char(']')
     } else {
@@ -6971,6 +7133,7 @@ where
                         unit,
                         sort_keys,
                         true,
+                        0,
                     )?;
                 } else {
                     out.write_str("- ")?;
@@ -6981,6 +7144,7 @@ where
                         unit,
                         sort_keys,
                         true,
+                        0,
                     )?;
                 }
                 write_line_comment(out, cursor.line_comment_raw())?;
@@ -7008,6 +7172,7 @@ where
                     unit,
                     sort_keys,
                     cursor.line_comment_raw(),
+                    0,
                 )?;
             }
         }
@@ -8758,6 +8923,40 @@ mod tests {
             .stream_yaml_document(&mut out, IndentSpec::spaces(2), false)
             .unwrap();
         assert_eq!(out, "a: &x 1\nb: *x");
+    }
+
+    #[test]
+    fn test_stream_yaml_of_a_subtree_resolves_aliases_to_anchors_outside_it() {
+        // A navigated result is printed on its own, so an alias in it whose
+        // anchor is not part of it is written as its value. That value is
+        // written plain: `&y` inside `*x`'s target is not declared again,
+        // or the `*y` after it would read 1 where the document says 2.
+        // Anchors and aliases that both live inside the result are kept.
+        let yaml = b"a: &x {p: &y 1, q: *y}\n\
+            b:\n  - &y 2\n  - *x # kept\n  - *y\n  - k: *x\n\
+            c: *x\n\
+            d: &z\n  r: &w 3\n  s: *w\n\
+            e:\n  - *z\n  - t: *z\n";
+        let index = YamlIndex::build(yaml).unwrap();
+        let YamlValue::Mapping(fields) = first_doc(index.root(yaml)) else {
+            panic!("expected a mapping");
+        };
+        let show = |name: &str| {
+            let mut out = String::new();
+            fields
+                .find_cursor(name)
+                .unwrap()
+                .stream_yaml_as_document(&mut out, IndentSpec::spaces(2), false)
+                .unwrap();
+            out
+        };
+        assert_eq!(
+            show("b"),
+            "- &y 2\n- {p: 1, q: 1} # kept\n- *y\n- k: {p: 1, q: 1}"
+        );
+        assert_eq!(show("c"), "{p: 1, q: 1}");
+        assert_eq!(show("d"), "&z\nr: &w 3\ns: *w");
+        assert_eq!(show("e"), "- r: 3\n  s: 3\n- t:\n    r: 3\n    s: 3");
     }
 
     #[test]
